@@ -76,14 +76,15 @@ def pairsOf : List String → List (String × String)
   | _ => []
 
 /-- `cover p conf n => lo_0 hi_0 … lo_n hi_n` (`- -` where the call is rejected) -/
-def coverOp (args : List String) : Option OpEval := do
+def coverOp (ratio : Bool) (args : List String) : Option OpEval := do
   let (conf, r) ← pConf args
   let (n, _) ← pNat r
   pure {
     needs := zNeed conf
     run := fun crit impl =>
       let model : List Tok := (List.range (n + 1)).flatMap fun k =>
-        match Proportion.ci crit conf n k with
+        match (if ratio then Proportion.ciWilsonRatio crit conf n (Float.ofNat k / Float.ofNat n)
+               else Proportion.ci crit conf n k) with
         | .ok (.twoSided a b) => [Tok.f a (16.0 * eps53), Tok.f b (16.0 * eps53)]
         | _ => [.s "-", .s "-"]
       let ivs : Array (Option (Float × Float)) := ((pairsOf (impl.head?.getD [])).map fun (a, b) =>
@@ -166,8 +167,10 @@ def qcoverOp (args : List String) : Option OpEval := do
 
 def coverOps (op ty : String) (args : List String) : Option OpEval :=
   match op, ty with
-  | "cover", "p" => coverOp args
+  | "cover", "p" => coverOp false args
+  | "cover", "r" => coverOp true args
   | "qcover", "n" => qcoverOp args
+  | "qcover2", "n" => qcoverOp args
   | _, _ => none
 
 end StatsCI.Driver
